@@ -20,6 +20,16 @@
 //! points is a file: what a back-end derives from the mesh stage of one pipeline (per-primitive decorations on Vulkan) must not
 //! reach the source of another one.
 
+//!
+//! Role dimension ("role shapes"): EVERY one of the 8 entry-point functions of the full prelude in EVERY one of the 5
+//! stage roles (Compute, Vertex, Pixel, Mesh, Task; the other stages of the pipeline keep their classic function), 40
+//! elements. Sequences over them put one function into different roles in different pipelines of one file: what one
+//! pipeline resolved for a function (stage kind, compute-or-graphics) must not reach another pipeline.
+//!
+//! Placement dimension: every definition of a sequence is either at root level or inside a namespace block of its own
+//! (`namespace Ns_<name> { Pipeline <name> {..} }`, thorough also nested two levels deep); every assignment of
+//! placements to the positions of the sequence is a file. Source order counts definitions wherever they are declared.
+
 use crate::engine::*;
 use crate::json::{Json, obj};
 use crate::util::*;
@@ -170,6 +180,26 @@ const STATES: [&str; 7] = [
 const DBGS: [&str; 4] = ["", "    DefaultBindGroup = 0;\n", "    DefaultBindGroup = 1;\n", "    DefaultBindGroup = 1 + 1;\n"];
 
 const PIXELS: [&str; 2] = ["PsMain", "PsAlt"];
+
+/// the entry points of the full prelude with their [numthreads] (index = index into FUNCS)
+const ROLE_ENTRIES: [(&str, Option<(u32, u32, u32)>); 8] = [
+    ("CsA", Some((8, 8, 1))),
+    ("CsB", Some((64, 1, 1))),
+    ("VsMain", None),
+    ("PsMain", None),
+    ("PsAlt", None),
+    ("MsMain", Some((32, 1, 1))),
+    ("MsPay", Some((16, 1, 1))),
+    ("TsMain", Some((4, 1, 1))),
+];
+/// the roles an entry point can be given by a pipeline definition
+const ROLE_NAMES: [&str; 5] = ["Compute", "Vertex", "Pixel", "Mesh", "Task"];
+/// first shape number of the role shapes: shape = ROLE_BASE + 5 * entry + role
+pub const ROLE_BASE: u8 = 5;
+pub const SHAPE_COUNT: u8 = ROLE_BASE + 40;
+
+/// placements of a definition: 0 = root level, 1 = inside a namespace block of its own, 2 = nested two levels deep
+const NS_KINDS: u8 = 3;
 
 /// name families, by position in the sequence
 const NAME_SCHEMES: [[&str; 4]; 3] = [
@@ -326,9 +356,40 @@ fn funcs(fnset: u8) -> Vec<String> {
     }
 }
 
+pub fn shape_name(shape: u8) -> String {
+    if shape < ROLE_BASE {
+        SHAPE_NAMES[shape as usize].to_string()
+    } else {
+        let r = shape - ROLE_BASE;
+        format!("{}-as-{}", ROLE_ENTRIES[(r / 5) as usize].0, ROLE_NAMES[(r % 5) as usize])
+    }
+}
+
 impl Elem {
     fn is_compute(self) -> bool {
-        self.shape < 2
+        self.shape < 2 || (self.shape >= ROLE_BASE && (self.shape - ROLE_BASE) % 5 == 0)
+    }
+    /// role shape: (entry index into ROLE_ENTRIES / FUNCS, role index into ROLE_NAMES)
+    fn role(self) -> Option<(usize, usize)> {
+        if self.shape >= ROLE_BASE {
+            let r = (self.shape - ROLE_BASE) as usize;
+            Some((r / 5, r % 5))
+        } else {
+            None
+        }
+    }
+    /// role shape: the (property, stage, function index) list in definition order; the stages other than the varied
+    /// one keep their classic function (vertex VsMain, pixel = the element's pixel entry, mesh MsMain)
+    fn role_stages(self) -> Vec<(&'static str, &'static str, usize)> {
+        let (entry, role) = self.role().unwrap();
+        let px = 3 + self.pixel as usize;
+        match role {
+            0 => vec![("ComputeShader", "Compute", entry)],
+            1 => vec![("VertexShader", "Vertex", entry), ("PixelShader", "Pixel", px)],
+            2 => vec![("VertexShader", "Vertex", 2), ("PixelShader", "Pixel", entry)],
+            3 => vec![("MeshShader", "Mesh", entry), ("PixelShader", "Pixel", px)],
+            _ => vec![("TaskShader", "Task", entry), ("MeshShader", "Mesh", 5), ("PixelShader", "Pixel", px)],
+        }
     }
     fn code(self) -> String {
         format!("{}.{}.{}.{}.{}", self.shape, self.dbg, self.state, self.pixel, self.mesh)
@@ -338,19 +399,30 @@ impl Elem {
         if v.len() == 4 {
             v.push(0);
         }
-        if v.len() != 5 || v[4] > MESH_VARIANTS || (v[4] != 0 && v[0] < 3) || v[0] > 4 || v[1] as usize >= DBGS.len() || v[2] as usize >= STATES.len() || v[3] as usize >= PIXELS.len() {
+        if v.len() != 5 || v[4] > MESH_VARIANTS || (v[4] != 0 && v[0] != 3 && v[0] != 4) || v[0] >= SHAPE_COUNT || v[1] as usize >= DBGS.len() || v[2] as usize >= STATES.len() || v[3] as usize >= PIXELS.len() {
             return None;
         }
-        if v[0] < 2 && (v[2] != 0 || v[3] != 0) {
+        let e = Elem { shape: v[0], dbg: v[1], state: v[2], pixel: v[3], mesh: v[4] };
+        if e.is_compute() && (v[2] != 0 || v[3] != 0) {
             return None;
         }
-        Some(Elem { shape: v[0], dbg: v[1], state: v[2], pixel: v[3], mesh: v[4] })
+        Some(e)
     }
     /// the definition text
-    fn text(self, name: &str) -> String {
-        let mut s = format!("\nPipeline {}\n{{\n", name);
+    fn text(self, name: &str, ns: u8) -> String {
+        let mut s = match ns {
+            0 => String::new(),
+            1 => format!("\nnamespace Ns_{}\n{{\n", name),
+            _ => format!("\nnamespace Outer\n{{\nnamespace In_{}\n{{\n", name),
+        };
+        s.push_str(&format!("\nPipeline {}\n{{\n", name));
         let px = PIXELS[self.pixel as usize];
         match self.shape {
+            _ if self.shape >= ROLE_BASE => {
+                for (prop, _, f) in self.role_stages() {
+                    s.push_str(&format!("    {} = {};\n", prop, ROLE_ENTRIES[f].0));
+                }
+            }
             0 => s.push_str("    ComputeShader = CsA;\n"),
             1 => s.push_str("    ComputeShader = CsB;\n"),
             2 => s.push_str(&format!("    VertexShader = VsMain;\n    PixelShader = {};\n", px)),
@@ -360,6 +432,9 @@ impl Elem {
         s.push_str(DBGS[self.dbg as usize]);
         s.push_str(STATES[self.state as usize]);
         s.push_str("}\n");
+        for _ in 0..ns {
+            s.push_str("}\n");
+        }
         s
     }
     /// the mesh entry point of a mesh shape
@@ -377,6 +452,9 @@ impl Elem {
             // [PsMain, PsAlt, TsMain, MsA1, MsPayA1, MsA2, ...]
             return 3 + 2 * (self.mesh as usize - 1) + if self.shape == 3 { 0 } else { 1 };
         }
+        if self.shape >= ROLE_BASE {
+            return self.role_stages().iter().map(|x| x.2).max().unwrap();
+        }
         match self.shape {
             0 => 0,
             1 => 1,
@@ -390,7 +468,7 @@ impl Elem {
         match fnset {
             0 => self.mesh == 0,
             1 => self.mesh == 0 && self.shape <= 2,
-            _ => self.shape >= 3 && self.mesh >= 1,
+            _ => (self.shape == 3 || self.shape == 4) && self.mesh >= 1,
         }
     }
     /// what the property lets us predict without running anything: the stage list (reference for "which definition is this")
@@ -398,6 +476,7 @@ impl Elem {
         let px = PIXELS[self.pixel as usize];
         let ms = self.mesh_entry();
         let list: Vec<(&str, &str, Option<(u32, u32, u32)>)> = match self.shape {
+            _ if self.shape >= ROLE_BASE => self.role_stages().iter().map(|(_, stage, f)| (*stage, ROLE_ENTRIES[*f].0, ROLE_ENTRIES[*f].1)).collect(),
             0 => vec![("Compute", "CsA", Some((8, 8, 1)))],
             1 => vec![("Compute", "CsB", Some((64, 1, 1)))],
             2 => vec![("Vertex", "VsMain", None), ("Pixel", px, None)],
@@ -417,28 +496,28 @@ impl Elem {
 
 /// Build the file. `fnset` 0 = all 8 entry points, 1 = without the mesh and task entry points, 2 = the mesh-attr prelude (see `funcs`). `keep = Some(k)`: all definitions except the k-th (index into `defs`) are deleted.
 /// Returns the source and the indices into `defs` in source order.
-fn build_file(defs: &[(Elem, String)], layout: u8, fnset: u8, keep: Option<usize>) -> (String, Vec<usize>) {
+fn build_file(defs: &[(Elem, String, u8)], layout: u8, fnset: u8, keep: Option<usize>) -> (String, Vec<usize>) {
     let mut src = String::from(HEAD);
     let mut order = Vec::new();
     // fnset 1: prelude variant without mesh/task entry points (Msl rejects every non-mesh pipeline of a file that has one)
     for (fi, f) in funcs(fnset).iter().enumerate() {
         src.push_str(f);
         if layout == 1 {
-            for (k, (e, name)) in defs.iter().enumerate() {
+            for (k, (e, name, ns)) in defs.iter().enumerate() {
                 if e.anchor(fnset) == fi {
                     order.push(k);
                     if keep.is_none() || keep == Some(k) {
-                        src.push_str(&e.text(name));
+                        src.push_str(&e.text(name, *ns));
                     }
                 }
             }
         }
     }
     if layout == 0 {
-        for (k, (e, name)) in defs.iter().enumerate() {
+        for (k, (e, name, ns)) in defs.iter().enumerate() {
             order.push(k);
             if keep.is_none() || keep == Some(k) {
-                src.push_str(&e.text(name));
+                src.push_str(&e.text(name, *ns));
             }
         }
     }
@@ -509,7 +588,7 @@ fn compile_out(src: &str, cfg: Cfg, mode: Mode, acc: &mut Acc) -> Out {
 
 thread_local! {
     /// result of compiling a definition alone: (element, name, layout, cfg) -> outcome. Pure memoisation.
-    static ALONE: RefCell<HashMap<(Elem, String, u8, u8, Cfg), Out>> = RefCell::new(HashMap::new());
+    static ALONE: RefCell<HashMap<(Elem, String, u8, u8, u8, Cfg), Out>> = RefCell::new(HashMap::new());
 }
 
 thread_local! {
@@ -530,12 +609,12 @@ fn bare_no_pipeline(fnset: u8, cfg: Cfg, acc: &mut Acc) -> Out {
     o
 }
 
-fn alone(e: Elem, name: &str, layout: u8, fnset: u8, cfg: Cfg, acc: &mut Acc) -> Out {
-    let key = (e, name.to_string(), layout, fnset, cfg);
+fn alone(e: Elem, name: &str, ns: u8, layout: u8, fnset: u8, cfg: Cfg, acc: &mut Acc) -> Out {
+    let key = (e, name.to_string(), ns, layout, fnset, cfg);
     if let Some(o) = ALONE.with(|c| c.borrow().get(&key).cloned()) {
         return o;
     }
-    let (src, _) = build_file(&[(e, name.to_string())], layout, fnset, None);
+    let (src, _) = build_file(&[(e, name.to_string(), ns)], layout, fnset, None);
     let o = compile_out(&src, cfg, Mode::All, acc);
     acc.count("alone_compiles");
     ALONE.with(|c| {
@@ -560,15 +639,21 @@ pub struct Case {
     pub fnset: u8,
     pub cfg: Cfg,
     pub undef: Vec<String>,
+    /// placement of each definition: 0 root level, 1 in a namespace block of its own, 2 nested two levels deep
+    pub ns: Vec<u8>,
 }
 
 impl Case {
+    fn defs(&self) -> Vec<(Elem, String, u8)> {
+        (0..self.elems.len()).map(|k| (self.elems[k], self.names[k].clone(), self.ns.get(k).copied().unwrap_or(0))).collect()
+    }
     fn replay(&self, src: &str) -> String {
         format!(
-            "kind: file\ncfg: {}\nlayout: {}\nfnset: {}\nelems: {}\nnames: {}\nundef: {}\nsource:\n{}",
+            "kind: file\ncfg: {}\nlayout: {}\nfnset: {}\nns: {}\nelems: {}\nnames: {}\nundef: {}\nsource:\n{}",
             self.cfg.name(),
             self.layout,
             self.fnset,
+            self.ns.iter().map(|x| x.to_string()).collect::<Vec<_>>().join(","),
             self.elems.iter().map(|e| e.code()).collect::<Vec<_>>().join(","),
             self.names.join(","),
             self.undef.join("|"),
@@ -577,11 +662,16 @@ impl Case {
     }
     fn describe(&self) -> String {
         let mut s = String::new();
-        for (e, n) in self.elems.iter().zip(self.names.iter()) {
+        for (k, (e, n)) in self.elems.iter().zip(self.names.iter()).enumerate() {
             s.push_str(&format!(
-                "{}:{}[dbg{} state{} {}{}] ",
+                "{}{}:{}[dbg{} state{} {}{}] ",
+                match self.ns.get(k).copied().unwrap_or(0) {
+                    0 => "",
+                    1 => "(in namespace)",
+                    _ => "(in nested namespace)",
+                },
                 n,
-                SHAPE_NAMES[e.shape as usize],
+                shape_name(e.shape),
                 e.dbg,
                 e.state,
                 if e.is_compute() { "-" } else { PIXELS[e.pixel as usize] },
@@ -624,7 +714,7 @@ pub fn check_case(case: &Case, acc: &mut Acc) {
     acc.evals += 1;
     let n = case.elems.len();
     let cfg = case.cfg;
-    let defs: Vec<(Elem, String)> = case.elems.iter().copied().zip(case.names.iter().cloned()).collect();
+    let defs = case.defs();
     let (src, order) = build_file(&defs, case.layout, case.fnset, None);
     let tname = cfg.name();
     let dup = (0..n).any(|i| (0..i).any(|j| case.names[i] == case.names[j]));
@@ -806,7 +896,7 @@ pub fn check_case(case: &Case, acc: &mut Acc) {
     }
 
     // ---- reference: every definition compiled with the others deleted
-    let alones: Vec<Out> = (0..n).map(|k| alone(case.elems[k], &case.names[k], case.layout, case.fnset, cfg, acc)).collect();
+    let alones: Vec<Out> = (0..n).map(|k| alone(case.elems[k], &case.names[k], defs[k].2, case.layout, case.fnset, cfg, acc)).collect();
     for (k, a) in alones.iter().enumerate() {
         match a {
             Out::Ok(ps) if ps.len() == 1 => {
@@ -975,6 +1065,26 @@ fn alphabet_mesh_attr(shapes: &[u8], pixels: &[u8], decor: &[(u8, u8)]) -> Vec<E
     v
 }
 
+/// role alphabet: the given entry points (indices into ROLE_ENTRIES) x the given roles (indices into ROLE_NAMES) x a
+/// short list of joint (DefaultBindGroup, state, pixel) decorations (compute pipelines keep the DefaultBindGroup only)
+fn alphabet_roles(groups: &[(&[usize], &[usize])], decor: &[(u8, u8, u8)]) -> Vec<Elem> {
+    let mut v: Vec<Elem> = Vec::new();
+    for &(dbg, state, pixel) in decor {
+        for (entries, roles) in groups {
+            for &entry in entries.iter() {
+                for &role in roles.iter() {
+                    let shape = ROLE_BASE + 5 * entry as u8 + role as u8;
+                    let e = if role == 0 { Elem { shape, dbg, state: 0, pixel: 0, mesh: 0 } } else { Elem { shape, dbg, state, pixel, mesh: 0 } };
+                    if !v.contains(&e) {
+                        v.push(e);
+                    }
+                }
+            }
+        }
+    }
+    v
+}
+
 /// names that no definition of the file carries: a proper prefix of the first name, an extension of it, the name of
 /// an entry-point function; in the "many" spaces also the empty name, an unrelated name and a respelling
 fn undef_names(names: &[String], many: bool, rot: u64) -> Vec<String> {
@@ -1001,11 +1111,13 @@ struct Space {
     many_undef: bool,
     fnset: u8,
     cfgs: Vec<Cfg>,
+    /// placements every definition ranges over (all assignments to the positions are enumerated)
+    ns_kinds: Vec<u8>,
 }
 
 impl Space {
     fn files(&self) -> u64 {
-        (self.alpha.len() as u64).pow(self.len as u32) * self.schemes.len() as u64 * self.layouts.len() as u64
+        (self.alpha.len() as u64).pow(self.len as u32) * self.schemes.len() as u64 * self.layouts.len() as u64 * (self.ns_kinds.len() as u64).pow(self.len as u32)
     }
     fn total(&self) -> u64 {
         self.files() * self.cfgs.len() as u64
@@ -1015,6 +1127,10 @@ impl Space {
         let mut radices = vec![self.cfgs.len() as u64, self.layouts.len() as u64, self.schemes.len() as u64];
         for _ in 0..self.len {
             radices.push(self.alpha.len() as u64);
+        }
+        // most significant: the placements (all at root level first)
+        for _ in 0..self.len {
+            radices.push(self.ns_kinds.len() as u64);
         }
         let mut d = Vec::new();
         decode(idx, &radices, &mut d);
@@ -1027,11 +1143,12 @@ impl Space {
         }
         let names: Vec<String> = (0..self.len).map(|p| NAME_SCHEMES[scheme][p].to_string()).collect();
         let undef = undef_names(&names, self.many_undef, d.iter().sum::<u64>());
-        Case { elems, names, layout, fnset: self.fnset, cfg, undef }
+        let ns: Vec<u8> = (0..self.len).map(|p| self.ns_kinds[d[3 + 2 * self.len - 1 - p] as usize]).collect();
+        Case { elems, names, layout, fnset: self.fnset, cfg, undef, ns }
     }
 }
 
-const ALPHABETS_DOC: &str = "full = 5 shapes x DefaultBindGroup{absent,0,1,1+1} x 7 state blocks x 2 pixel entries (graphics) (176 elements); mid = DefaultBindGroup{absent,1,1+1} x state{none,#2,#5} x 2 pixel entries (60); forty = DefaultBindGroup{absent,1+1} x state{none,#2,#5} x 2 pixel entries (40); twenty = 5 joint (DefaultBindGroup,state,pixel) decorations (21); small = 3 joint decorations (15); tiny = 2 joint decorations (10); *_nomesh = the same restricted to the compute and vertex+pixel shapes in the prelude variant without mesh/task entry points (run on Msl, which rejects those shapes in the full prelude); *_meshattr = mesh-attr prelude: {mesh+pixel, task+mesh+pixel} x 6 mesh entry points (every placement of TEXCOORD and MATERIAL per vertex / per primitive through struct members = 4, plus each attribute alone through a directly annotated `out primitives` parameter = 2) x 2 pixel entries (24 elements); len1_meshattr additionally x 3 (DefaultBindGroup,state) decorations (72), len2_meshattr_decorated x 2 decorations (48); psalt = pixel entry PsAlt only (12); meshonly = mesh+pixel with PsAlt only (6); meshonly_struct = the 4 struct-member placements of it (4)";
+const ALPHABETS_DOC: &str = "full = 5 shapes x DefaultBindGroup{absent,0,1,1+1} x 7 state blocks x 2 pixel entries (graphics) (176 elements); mid = DefaultBindGroup{absent,1,1+1} x state{none,#2,#5} x 2 pixel entries (60); forty = DefaultBindGroup{absent,1+1} x state{none,#2,#5} x 2 pixel entries (40); twenty = 5 joint (DefaultBindGroup,state,pixel) decorations (21); small = 3 joint decorations (15); tiny = 2 joint decorations (10); *_nomesh = the same restricted to the compute and vertex+pixel shapes in the prelude variant without mesh/task entry points (run on Msl, which rejects those shapes in the full prelude); *_meshattr = mesh-attr prelude: {mesh+pixel, task+mesh+pixel} x 6 mesh entry points (every placement of TEXCOORD and MATERIAL per vertex / per primitive through struct members = 4, plus each attribute alone through a directly annotated `out primitives` parameter = 2) x 2 pixel entries (24 elements); len1_meshattr additionally x 3 (DefaultBindGroup,state) decorations (72), len2_meshattr_decorated x 2 decorations (48); psalt = pixel entry PsAlt only (12); meshonly = mesh+pixel with PsAlt only (6); meshonly_struct = the 4 struct-member placements of it (4); roles_all = 8 entry points x 5 roles (40); roles_family = the 5 [numthreads] kernels x {Compute, Mesh, Task} + the 3 others x {Vertex, Pixel} (21); roles_family_decorated = x {plain, DefaultBindGroup 1+1 + state #5 + PsAlt} (42); base = the 5 classic shapes undecorated (5); three = computeA, vertex+pixel, task+mesh+pixel (3); *_placements = every definition x {root level, own namespace block[, nested namespace blocks]}";
 
 fn spaces(ctx: &Ctx) -> Vec<Space> {
     let full = alphabet(&[0, 1, 2, 3], &[0, 1, 2, 3, 4, 5, 6], &[0, 1]);
@@ -1051,6 +1168,7 @@ fn spaces(ctx: &Ctx) -> Vec<Space> {
         many_undef: many,
         fnset: 0,
         cfgs: ALL_CFGS.to_vec(),
+        ns_kinds: vec![0],
     };
     let msl_only = |mut s: Space| -> Space {
         s.alpha = nomesh(&s.alpha);
@@ -1096,6 +1214,42 @@ fn spaces(ctx: &Ctx) -> Vec<Space> {
         v.push(attr_sp("len3_meshattr_psalt", &attr_alt, 3, &[1], &[0]));
         v.push(attr_sp("len4_meshattr_meshonly", &attr_mesh_only, 4, &[1], &[0]));
     }
+    // role shapes: every entry point in every role / the kernels in the three kernel roles and the others in the two others
+    let all_entries: &[usize] = &[0, 1, 2, 3, 4, 5, 6, 7];
+    let roles_all = alphabet_roles(&[(all_entries, &[0, 1, 2, 3, 4])], &[(0, 0, 0)]);
+    let family: &[(&[usize], &[usize])] = &[(&[0, 1, 5, 6, 7], &[0, 3, 4]), (&[2, 3, 4], &[1, 2])];
+    let roles_family = alphabet_roles(family, &[(0, 0, 0)]);
+    let roles_family_decorated = alphabet_roles(family, &[(0, 0, 0), (3, 5, 1)]);
+    v.push(sp("len1_roles_all", &roles_all, 1, &[1], &[0, 1], false));
+    if ctx.quick() {
+        v.push(sp("len2_roles_family", &roles_family, 2, &[1], &[0], false));
+    } else {
+        v.push(sp("len2_roles_all", &roles_all, 2, &[1], &[0], false));
+        v.push(sp("len2_roles_family_decorated_layout1", &roles_family_decorated, 2, &[0], &[1], false));
+        v.push(sp("len3_roles_family", &roles_family, 3, &[1], &[0], false));
+    }
+    // placements: every definition at root level or inside a namespace block, every assignment over the positions
+    let base = alphabet_joint(&[(0, 0, 0)]);
+    let three: Vec<Elem> = base.iter().copied().filter(|e| e.shape == 0 || e.shape == 2 || e.shape == 4).collect();
+    let placed = |mut s: Space, kinds: &[u8]| -> Space {
+        s.ns_kinds = kinds.to_vec();
+        s.name = format!("{}_placements", s.name);
+        s
+    };
+    v.push(placed(sp("len1_small", &small, 1, &[0, 1], &[0, 1], false), &[0, 1, 2]));
+    v.push(placed(msl_only(sp("len1_small", &small, 1, &[0, 1], &[0, 1], false)), &[0, 1, 2]));
+    if ctx.quick() {
+        v.push(placed(sp("len2_tiny", &tiny, 2, &[1], &[0], false), &[0, 1]));
+        v.push(placed(msl_only(sp("len2_small", &small, 2, &[1], &[0], false)), &[0, 1]));
+        v.push(placed(sp("len3_three", &three, 3, &[1], &[0], false), &[0, 1]));
+    } else {
+        v.push(placed(sp("len2_tiny_layouts", &tiny, 2, &[1], &[0, 1], false), &[0, 1, 2]));
+        v.push(placed(msl_only(sp("len2_small_layouts", &small, 2, &[1], &[0, 1], false)), &[0, 1, 2]));
+        v.push(placed(sp("len2_roles_family", &roles_family, 2, &[1], &[0], false), &[0, 1]));
+        v.push(placed(sp("len3_base", &base, 3, &[1], &[0], false), &[0, 1]));
+        v.push(placed(msl_only(sp("len3_small", &small, 3, &[1], &[0], false)), &[0, 1]));
+        v.push(placed(sp("len4_three", &three, 4, &[1], &[0], false), &[0, 1]));
+    }
     if ctx.quick() {
         v.push(sp("len2_forty", &forty, 2, &[1], &[0], false));
         v.push(msl_only(sp("len2_mid", &mid, 2, &[1], &[0], false)));
@@ -1128,7 +1282,7 @@ fn duplicate_cases(ctx: &Ctx) -> Vec<Case> {
         let fnset = if elems.iter().all(|e| e.shape <= 2) { 1 } else { 0 };
         for cfg in ALL_CFGS {
             let names: Vec<String> = pat.iter().map(|s| s.to_string()).collect();
-            out.push(Case { elems: elems.clone(), names, layout, fnset, cfg, undef: vec!["C".into(), "".into()] });
+            out.push(Case { ns: vec![0; elems.len()], elems: elems.clone(), names, layout, fnset, cfg, undef: vec!["C".into(), "".into()] });
         }
     };
     for a in 0..5 {
@@ -1163,7 +1317,7 @@ fn sanity(rep: &mut Report) -> Result<(), String> {
                         continue;
                     }
                     let e = Elem { shape, dbg: 0, state: 0, pixel, mesh: 0 };
-                    let (src, _) = build_file(&[(e, "P0".to_string())], 0, fnset, None);
+                    let (src, _) = build_file(&[(e, "P0".to_string(), 0)], 0, fnset, None);
                     let o = compile_out(&src, cfg, Mode::All, &mut acc);
                     let ok = matches!(&o, Out::Ok(ps) if ps.len() == 1);
                     let label = format!("{} prelude, {}/{}", PRELUDE_NAMES[fnset as usize], SHAPE_NAMES[shape as usize], PIXELS[pixel as usize]);
@@ -1187,7 +1341,7 @@ fn sanity(rep: &mut Report) -> Result<(), String> {
             for mesh in 1..=MESH_VARIANTS {
                 for pixel in 0..2u8 {
                     let e = Elem { shape, dbg: 0, state: 0, pixel, mesh };
-                    let (src, _) = build_file(&[(e, "P0".to_string())], 0, 2, None);
+                    let (src, _) = build_file(&[(e, "P0".to_string(), 0)], 0, 2, None);
                     let o = compile_out(&src, cfg, Mode::All, &mut acc);
                     let label = format!("mesh-attr prelude, {}/{}/{}", SHAPE_NAMES[shape as usize], e.mesh_entry(), PIXELS[pixel as usize]);
                     let (uv, mat) = mesh_variant_placement(mesh);
@@ -1217,6 +1371,33 @@ fn sanity(rep: &mut Report) -> Result<(), String> {
             }
         }
     }
+    // role shapes: which (entry point, role) uses each target accepts alone (the type checker accepts every one; the
+    // back-ends reject some). The two uses the classic shapes do not have but real files do (a [numthreads] kernel as
+    // task shader, the task kernel as compute shader) must be accepted by the HLSL targets.
+    let mut roles = Vec::new();
+    for cfg in ALL_CFGS {
+        let mut accepted = Vec::new();
+        let mut rejected = Vec::new();
+        for shape in ROLE_BASE..SHAPE_COUNT {
+            let e = Elem { shape, dbg: 0, state: 0, pixel: 0, mesh: 0 };
+            let (src, _) = build_file(&[(e, "P0".to_string(), 1)], 0, 0, None);
+            let o = compile_out(&src, cfg, Mode::All, &mut acc);
+            match &o {
+                Out::Ok(ps) if ps.len() == 1 && ps[0].stages == e.expected_stages(cfg) => accepted.push(shape_name(shape)),
+                Out::Err(_) => rejected.push(shape_name(shape)),
+                _ => return Err(format!("generated file (role shape {}) on {}: {}", shape_name(shape), cfg.name(), o.brief())),
+            }
+        }
+        if cfg != Cfg::Msl {
+            for must in ["CsA-as-Task", "TsMain-as-Compute", "CsB-as-Task", "PsMain-as-Vertex"] {
+                if !accepted.iter().any(|x| x == must) {
+                    return Err(format!("role shape {} is not accepted on {}", must, cfg.name()));
+                }
+            }
+        }
+        roles.push(format!("{}: {} accepted, rejected by the back-end: [{}]", cfg.name(), accepted.len(), rejected.join(", ")));
+    }
+    rep.cov("role_shapes_accepted_alone", roles.into());
     rep.cov("vulkan_per_primitive_decorations_per_mesh_entry", placements.into());
     rep.cov("msl_verdict_per_shape", msl.into());
     Ok(())
@@ -1243,12 +1424,13 @@ pub fn run(ctx: &Ctx) -> i32 {
     for sp in &sps {
         files_total += sp.files();
         listing.push(format!(
-            "{}: {} definitions over {} elements x {} name families x {} layouts = {} files x {} targets",
+            "{}: {} definitions over {} elements x {} name families x {} layouts x {} placements per definition = {} files x {} targets",
             sp.name,
             sp.len,
             sp.alpha.len(),
             sp.schemes.len(),
             sp.layouts.len(),
+            sp.ns_kinds.len(),
             sp.files(),
             sp.cfgs.len()
         ));
@@ -1275,6 +1457,8 @@ pub fn run(ctx: &Ctx) -> i32 {
         "a back-end rejection of a definition (Msl) must reproduce identically for the whole file (first rejected definition in source order) and for selection by name".into(),
         "files with duplicate pipeline names: only a clean outcome is demanded (an error, or results obeying the count/identity rule), because the property does not say which of the two a name selects".into(),
         "no-pipeline mode: never a panic, never a 'does not contain' error; if accepted exactly one result without stages and without pipeline state; a back-end rejection for other reasons (Msl: mesh intrinsics need a mesh pipeline) is allowed. Its content (data, stages, metadata, state, or the diagnostic) must equal that of the same file with every Pipeline block deleted ('whether or not other pipelines are defined'); not compared for files with duplicate names".into(),
+        "role shapes: each of the 8 entry points of the full prelude in each of the 5 roles, the other stages of the pipeline keep their classic function (vertex VsMain, pixel PsMain/PsAlt, mesh MsMain); the type checker does not tie a function to a role, a back-end may reject a use and that rejection must reproduce like every back-end rejection; pipelines with two varied roles at once are outside the space".into(),
+        "placements: a definition inside a namespace block sits in a block of its own named after the pipeline (Ns_<name>, or Outer::In_<name> when nested) and refers to the root-level entry points by their plain names; several definitions in one block and entry points declared inside namespaces are outside the space. Source order and selection by (unqualified) name are demanded of namespaced definitions as of root-level ones".into(),
         "unknown name: must be Err mentioning `does not contain the pipeline` and the name (documented text of compile.rs); in the larger spaces one of three unknown names per case, rotating".into(),
     ];
     finish(ctx, rep)
@@ -1287,6 +1471,7 @@ pub fn replay(ctx: &Ctx, body: &str) -> i32 {
     let mut elems = Vec::new();
     let mut names: Vec<String> = Vec::new();
     let mut undef: Vec<String> = Vec::new();
+    let mut ns: Vec<u8> = Vec::new();
     let mut lines = body.lines();
     match lines.next() {
         Some(l) if l.trim() == "kind: file" => {}
@@ -1305,6 +1490,8 @@ pub fn replay(ctx: &Ctx, body: &str) -> i32 {
             layout = x.trim().parse().unwrap_or(0);
         } else if let Some(x) = l.strip_prefix("fnset: ") {
             fnset = x.trim().parse().unwrap_or(0);
+        } else if let Some(x) = l.strip_prefix("ns: ") {
+            ns = x.split(',').filter_map(|s| s.trim().parse().ok()).collect();
         } else if let Some(x) = l.strip_prefix("elems: ") {
             for e in x.split(',').filter(|s| !s.trim().is_empty()) {
                 match Elem::parse(e) {
@@ -1338,9 +1525,14 @@ pub fn replay(ctx: &Ctx, body: &str) -> i32 {
         eprintln!("machinery error: an element does not fit prelude {}", fnset);
         return 2;
     }
-    let case = Case { elems, names, layout, fnset, cfg, undef };
+    ns.resize(elems.len(), 0);
+    if ns.iter().any(|x| *x >= NS_KINDS) {
+        eprintln!("machinery error: bad placement");
+        return 2;
+    }
+    let case = Case { elems, names, layout, fnset, cfg, undef, ns };
     if std::env::var("C17_DUMP").is_ok() {
-        let defs: Vec<(Elem, String)> = case.elems.iter().copied().zip(case.names.iter().cloned()).collect();
+        let defs = case.defs();
         let (src, _) = build_file(&defs, case.layout, case.fnset, None);
         println!("{}", src);
         let mut acc = Acc::default();
